@@ -364,7 +364,12 @@ func runProgK(dt string, prog string, keep bool) string {
 	}
 	var out []string
 	for _, op := range strings.Split(prog, ";") {
+		trackSpares = true
 		st := w.step(op)
+		trackSpares = false
+		if spareClobbered() {
+			st += "!wrote-beyond-callers-slice"
+		}
 		if st == "panic" {
 			out = append(out, "panic")
 			break
